@@ -5,6 +5,7 @@
 //! schemas needed to generate their arguments.
 
 use radix_engine::system::system_db_reader::SystemDatabaseReader;
+use radix_blueprint_schema_init::RefTypes;
 use radix_engine_interface::blueprints::locker::*;
 use radix_engine_interface::blueprints::pool::*;
 use scrypto_test::prelude::*;
@@ -532,6 +533,15 @@ pub fn build(w: &mut World) {
 }
 
 impl Ext {
+    /// An account that held the resource in the frozen world (7 in 8), else any account.
+    pub fn pick_holder(&self, g: &mut vf_core::Gen, res: &ResourceAddress) -> usize {
+        let holders: Vec<usize> = (0..4usize).filter(|a| self.account_vaults.contains_key(&(*a, *res))).collect();
+        if holders.is_empty() || g.chance(1, 8) {
+            g.index(4)
+        } else {
+            holders[g.index(holders.len())]
+        }
+    }
     pub fn res_info(&self, r: &ResourceAddress) -> Option<&ResInfo> {
         self.resources.iter().find(|x| x.address == *r)
     }
